@@ -6,6 +6,7 @@ import (
 	"fmt"
 	"go/ast"
 	"go/constant"
+	"go/token"
 	"go/types"
 	"sort"
 	"strings"
@@ -26,6 +27,7 @@ func c20(c *Ctx) {
 	c20R1(c)
 	c20R2(c)
 	c20R3(c)
+	c20R4(c)
 }
 
 func c20R1(c *Ctx) {
@@ -433,6 +435,46 @@ func c20R2(c *Ctx) {
 		})
 		c.Check(len(vsets) > 0 && w == nil, "C20.R2", gk.what+" is written whenever a datapath was selected", p.Pos(sw), fn.Key(), "must-pass: switch datapath → plugin.Set(…, \""+gk.key+"\") → next plugin / success return (a value of the input never survives)", "path: "+p.describePath(w))
 	}
+	// the selection is final: once the datapath switch decided whether a chainer is needed, the
+	// selected datapath is not changed any more (a later override would be written without the
+	// chainer it requires)
+	if dv := identObj(info, sw.Tag); dv != nil {
+		late := ""
+		for _, d := range varDefs(fn, dv) {
+			if d.node.Pos() > sw.End() {
+				late = p.Pos(d.node)
+			}
+		}
+		c.Check(late == "", "C20.R2", "the selected datapath is not reassigned after the chainer decision", p.Pos(sw), fn.Key(), "no assignment of "+dv.Name()+" after the datapath switch", "reassigned at "+late)
+	}
+	// the serialised list is returned as the JSON library produced it
+	{
+		sig := fn.Obj.Type().(*types.Signature)
+		for _, r := range declReturns(fn.Decl.Body) {
+			if ok, known := isSuccessReturn(info, sig, r); !ok || !known {
+				continue
+			}
+			x := ast.Unparen(derefExpr(fn, r.Results[0]))
+			okSer := false
+			if call, isC := x.(*ast.CallExpr); isC {
+				if f := Callee(info, call); f != nil && f.Pkg() != nil {
+					pp := f.Pkg().Path()
+					if (strings.Contains(pp, "gabs") && strings.HasPrefix(f.Name(), "String")) || (pp == "encoding/json" && strings.HasPrefix(f.Name(), "Marshal")) {
+						okSer = true
+					}
+				}
+				if tv, isConv := info.Types[call.Fun]; isConv && tv.IsType() && len(call.Args) == 1 {
+					// string(bytes) of a Marshal result
+					if inner, ok := ast.Unparen(derefExpr(fn, call.Args[0])).(*ast.CallExpr); ok {
+						if f := Callee(info, inner); f != nil && f.Pkg() != nil && f.Pkg().Path() == "encoding/json" {
+							okSer = true
+						}
+					}
+				}
+			}
+			c.Check(okSer, "C20.R2", "the generated list is returned as the JSON serialiser produced it", p.Pos(r), fn.Key(), "return <container>.String…() / json.Marshal…", "post-processed: "+exprString(x))
+		}
+	}
 	// the virtual type written is the selected datapath
 	for _, s := range sets {
 		if s.key != "eniip_virtual_type" {
@@ -570,4 +612,56 @@ func c20R3(c *Ctx) {
 		return true
 	})
 	c.Check(okLoad, "C20.R3", "unreadable capability file is an error", p.Pos(fn.Decl), fn.Key(), "if err := store.Load(); err != nil { return false, err }", "not found")
+}
+
+// c20R4: one way to a Config. A value of types/daemon.Config is decoded from
+// bytes only inside MergeConfigAndUnmarshal (after the merge patch): decoding an
+// overlay straight into a Config that already holds the base is not a merge patch
+// (null does not delete, nested objects are overwritten member by member).
+func c20R4(c *Ctx) {
+	p := c.P
+	c.Rule("C20.R4", "a types/daemon.Config is decoded (json / yaml Unmarshal, Decoder.Decode) into a value created empty on the spot, or in MergeConfigAndUnmarshal from the library's merge output — nobody layers an overlay onto a populated Config by decoding into it")
+	allowed := map[string]string{daemonTypesPkg + ".MergeConfigAndUnmarshal": "decodes the merge output"}
+	n := 0
+	sites := map[*FuncInfo][]ast.Node{}
+	for _, fn := range p.live() {
+		info := fn.Info()
+		for _, cs := range p.CallsIn(fn) {
+			f := cs.Callee
+			if f == nil || (f.Name() != "Unmarshal" && f.Name() != "Decode" && f.Name() != "UnmarshalStrict") || len(cs.Call.Args) == 0 {
+				continue
+			}
+			tgt := cs.Call.Args[len(cs.Call.Args)-1]
+			if !typeIs(info.TypeOf(tgt), modPath+"/"+daemonTypesPkg, "Config") {
+				continue
+			}
+			n++
+			// decoding into a value created empty right there layers nothing
+			x := ast.Unparen(tgt)
+			if u, ok := x.(*ast.UnaryExpr); ok && u.Op == token.AND {
+				x = ast.Unparen(u.X)
+			}
+			fresh := false
+			if o := identObj(info, x); o != nil {
+				ds := varDefs(fn, o)
+				fresh = len(ds) == 1
+				for _, d := range ds {
+					r := ast.Unparen(d.rhs)
+					if u, ok := r.(*ast.UnaryExpr); ok && u.Op == token.AND {
+						r = ast.Unparen(u.X)
+					}
+					if cl, ok := r.(*ast.CompositeLit); d.rhs != nil && (!ok || len(cl.Elts) > 0) {
+						fresh = false
+					}
+				}
+			}
+			if fresh {
+				c.OK("C20.R4", "decode into a freshly created Config in "+fn.Key(), p.Pos(cs.Call), fn.Key(), "the target was created empty in this function")
+				continue
+			}
+			sites[fn] = append(sites[fn], cs.Call)
+		}
+	}
+	c.WhoMay("C20.R4", "decode into a populated daemon Config", sites, allowed)
+	c.Floor("C20.R4", "decode sites of daemon.Config", 1, n)
 }
